@@ -1,7 +1,8 @@
 ------------------------------- MODULE NNSTrace -------------------------------
 (***************************************************************************)
-(* Trace monitor: evaluates the properties C10/C11/C12 (deciding) and the  *)
-(* actions and the read-API model of NNS.tla (binding) on executions       *)
+(* Trace monitor: evaluates the properties C10/C11/C12 and the extension   *)
+(* X03 (the registration price) - deciding - and the actions and the       *)
+(* read-API model of NNS.tla - binding - on executions                     *)
 (* recorded from the real NameService contract by harness/nns.  The        *)
 (* variables of the Spec are bound to the raw storage observed after every *)
 (* line, api to the observed answers of the read methods, g to the         *)
@@ -13,7 +14,7 @@ EXTENDS NNS, Json, SequencesExt
 CONSTANT TraceFile
 
 VARIABLES l, g, api
-tvars == <<now, roots, ns, supply, bal, idx, rec, soa, ev, l, g, api>>
+tvars == <<now, roots, ns, supply, bal, idx, rec, soa, price, ev, l, g, api>>
 
 Trace == ndJsonDeserialize(TraceFile)
 
@@ -44,7 +45,8 @@ ApiOf(a) ==
    soa    |-> [n \in NT |-> a.soa[n]],
    all    |-> [n \in NT |-> a.all[n]],
    res    |-> [n \in NT |-> [ty \in OkTypes |-> a.res[n][ty]]],
-   resdot |-> [n \in NT |-> a.resdot[n]]]
+   resdot |-> [n \in NT |-> a.resdot[n]],
+   price  |-> a.price]
 
 Flag(ok, prop, pred, r, tags) ==
   IF ok THEN TRUE
@@ -72,6 +74,7 @@ SpecStep(r) ==
     [] r.act = "addRecord"     -> AddRecord(e.S, e.via, e.n, e.ty, e.d)
     [] r.act = "setRecord"     -> SetRecord(e.S, e.via, e.n, e.ty, e.x, e.d)   \* Dev of the cfg: {} = the repaired method
     [] r.act = "deleteRecords" -> DeleteRecords(e.S, e.via, e.n, e.ty)
+    [] r.act = "setPrice"      -> SetPrice(e.S, e.via, e.x)
     [] OTHER -> FALSE
 
 \* the read methods answer what the Spec computes from the storage (Dev of the cfg: {} = the repaired code)
@@ -101,6 +104,11 @@ Judge(r) ==
       /\ Flag(C12_Resolve(H, n1, a), "C12", "Resolve", r, t)
       /\ Flag(C12_ResolveDot(a), "C12", "ResolveDot", r, t)
       /\ Flag(C12_RegisterConflict(g, e), "C12", "RegisterConflict", r, t)
+      \* extension X03: pb / pa = getPrice() observed after the previous line / after this line
+      /\ Flag(X03_PriceGate(e, api.price, a.price), "X03", "PriceGate", r, t)
+      /\ Flag(X03_PriceStored(e, api.price, a.price), "X03", "PriceStored", r, t)
+      /\ Flag(X03_RegisterNeedsPrice(e, api.price), "X03", "RegisterNeedsPrice", r, t)
+      /\ Flag(r.obs.praw = r.obs.price, "DRIFT", "PriceRaw", r, t)      \* getPrice() answers the stored value (key 0x10)
       /\ Flag(SpecStep(r), "DRIFT", "SpecStep", r, t)
       /\ Flag(ApiStep, "DRIFT", "ApiStep", r, t)
 
@@ -123,12 +131,13 @@ TraceNext ==
          /\ idx' = ToSet(o.idx)
          /\ rec' = RecOf(o)
          /\ soa' = [n \in Names |-> o.soa[n]]
+         /\ price' = o.price
          /\ ev' = EvOf(r)
          /\ api' = ApiOf(o.api)
          /\ IF r.act = "reset"
             THEN /\ g' = GInit
                  /\ Flag(r.year = YEAR /\ r.bad = <<>> /\ o.stray = <<>>, "C10", "Observable", r, {})
-                 /\ Flag(ApiStep /\ ns' = GInit.reg, "DRIFT", "Reset", r, {})
+                 /\ Flag(ApiStep /\ ns' = GInit.reg /\ price' = DefPrice /\ o.praw = o.price, "DRIFT", "Reset", r, {})
             ELSE /\ g' = GNext(g, ev', now)
                  /\ Judge(r)
          /\ IF l' = Len(Trace) THEN PrintT("DONE|" \o ToString(l')) ELSE TRUE
